@@ -7,7 +7,7 @@ Import ListNotations.
 Definition reachable (c : cfg) (s : state) : Prop := exists ls, run c init ls = Some s.
 
 Definition in_loop (r : rpc) : bool :=
-  match r with RSel | RLock _ _ _ | REmit _ _ _ | RDoneSend => true | _ => false end.
+  match r with RSel | RLock _ _ _ | REmit _ _ _ | RDPend _ _ _ | RDoneSend => true | _ => false end.
 
 Definition rf_gone (f : rfst) : bool := match f with RFGone => true | _ => false end.
 
@@ -26,7 +26,7 @@ Definition dir_inv (m : mpc) (dn : bool) (x : dstate) : bool :=
   (* at the select a ReadFrame goroutine is outstanding or has posted *)
   && (match rd x with
       | RSel => negb (rf_gone (rf x))
-      | RLock _ _ _ | REmit _ _ _ => rf_gone (rf x)   (* the posted frame has been taken *)
+      | RLock _ _ _ | REmit _ _ _ | RDPend _ _ _ => rf_gone (rf x)   (* the posted frame has been taken *)
       | _ => true end)
   (* Proxy returns only after both directions have *)
   && (match m with MReturned => negb (reader_alive (rd x)) | _ => true end).
@@ -43,7 +43,9 @@ Definition glob1 (s : state) : bool :=
   | _ => negb (sc_closed s) && negb (cc_closed s)
   end
   (* writerErr is buffered: the writer never waits to hand its error over *)
-  && not_errsend (wr (dc s)) && not_errsend (wr (ds s)).
+  && not_errsend (wr (dc s)) && not_errsend (wr (ds s))
+  (* no destMu is ever left locked *)
+  && negb (dleak_c s) && negb (dleak_s s).
 
 (* evidence that the session is ending *)
 Definition left_loop (r : rpc) : Prop := r = RDoneSend \/ r = RExited \/ r = RRet.
@@ -95,14 +97,19 @@ Ltac step_cases s l Hs :=
   destruct_state s;
   destruct l; repeat match goal with t : side |- _ => destruct t end;
   cbn [step getd setd with_rd with_rd_rf exit_failed set_trig set_remote remote
-       dc ds main cli srv wbroken_c wbroken_s sc_closed cc_closed closing done trig
-       rd wr wfailed werr chan queued rf inflight other cfg_fixed fix_close fix_done fix_abort werr_buffered] in Hs;
+       dc ds main cli srv wbroken_c wbroken_s sc_closed cc_closed closing done trig dleak_c dleak_s dleak set_dleak
+       rd wr wfailed werr chan queued rf inflight other cfg_fixed fix_close fix_done fix_abort werr_buffered credit_unlocks
+       andb negb] in Hs;
   repeat bm; try discriminate Hs; inversion Hs; subst; clear Hs;
-  repeat match goal with t : side |- _ => destruct t end.
+  repeat match goal with t : side |- _ => destruct t end;
+  repeat match goal with
+         | |- context [if ?b then _ else _] => is_var b; destruct b
+         | |- context [match ?o with Some _ => _ | None => _ end] => is_var o; destruct o
+         end.
 
 Ltac red_state :=
   cbn [exit_failed set_trig set_remote getd setd with_rd with_rd_rf
-       dc ds main cli srv wbroken_c wbroken_s sc_closed cc_closed closing done trig
+       dc ds main cli srv wbroken_c wbroken_s sc_closed cc_closed closing done trig dleak_c dleak_s dleak set_dleak
        rd wr wfailed werr chan queued rf inflight other returned] in *.
 
 Lemma dinv_step_any : forall c s l s' d0,
@@ -138,7 +145,7 @@ Proof.
   destruct_state s;
   destruct l; repeat match goal with t : side |- _ => destruct t end;
   cbn [step getd setd with_rd with_rd_rf exit_failed set_trig set_remote remote
-       dc ds main cli srv wbroken_c wbroken_s sc_closed cc_closed closing done trig
+       dc ds main cli srv wbroken_c wbroken_s sc_closed cc_closed closing done trig dleak_c dleak_s dleak set_dleak
        rd wr wfailed werr chan queued rf inflight other] in Hs;
   try rewrite Hwb in Hs;
   repeat bm; try discriminate Hs; inversion Hs; subst; clear Hs;
